@@ -10,6 +10,7 @@ for f in lean/Driver/C*.lean; do
   n=$(basename "$f" .lean | tr 'A-Z' 'a-z')
   (cd lean && lake build "drv_$n" >/dev/null 2>&1) || echo "WARN: driver drv_$n did not build"
 done
+(cd lean && lake build drv_tables >/dev/null 2>&1) || echo "WARN: driver drv_tables did not build"
 for f in lean/CalVerif/Props/C*.lean; do
   m=$(basename "$f" .lean)
   (cd lean && lake build "CalVerif.Props.$m" >/dev/null 2>&1) || echo "WARN: CalVerif.Props.$m did not build"
